@@ -86,7 +86,7 @@ def cases(tier, seed):
                             yield {'counts': counts, 'plan': plan, 'status': status, 'mode': mode, 'comments': False}
     # ---- seeded part ----------------------------------------------------------------------
     rng = common.rng_for(seed, ID)
-    n_rand = 1500 if tier == 'quick' else 40000
+    n_rand = 8000 if tier == 'quick' else 40000
     if tier == 'thorough':
         # n = 3 single faults + cleanup pairs, exhaustively
         counts = {'conf': 3, 'setup': 3, 'before-assert': 3, 'assert': 3, 'cleanup': 3}
